@@ -122,6 +122,11 @@ func parseBool(b byte) (bool, error) {
 	return b != 0, nil
 }
 
+// isChoiceType reports whether t is a struct following the CHOICE convention (first field Present).
+func isChoiceType(t reflect.Type) bool {
+	return t.Kind() == reflect.Struct && t.NumField() > 0 && t.Field(0).Name == "Present"
+}
+
 // ParseField is the main parsing function. Given a byte slice containing type value,
 // it will try to parse a suitable ASN.1 value out and store it
 // in the given Value. TODO : ObjectIdenfier
@@ -141,6 +146,15 @@ func ParseField(v reflect.Value, bytes []byte, params fieldParameters) error {
 	}
 	if int64(talOff)+tal.len > int64(len(bytes)) {
 		return fmt.Errorf("type value out of range")
+	}
+
+	// EXPLICIT tagging: the element proper is the content of the context tag
+	// (a tagged CHOICE is always explicit and is unwrapped below).
+	if params.tagNumber != nil && params.explicitTag && !isChoiceType(fieldType) {
+		innerParams := params
+		innerParams.tagNumber = nil
+		innerParams.explicitTag = false
+		return ParseField(v, bytes[talOff:int64(talOff)+tal.len], innerParams)
 	}
 
 	// We deal with the structures defined in this package first.
